@@ -436,9 +436,12 @@ def run_property(pid, tier, seed):
     first = True
     for fam, nq, nt in cfg["fams"]:
         n = nq if tier == "quick" else nt
-        fr = run_family(pid, fam, n, seed, corpus if first else ())
-        first = False
-        results.append(fr)
+        # thorough: three derived seeds for the generated families (grids are exhaustive: once)
+        seeds = [seed] if tier == "quick" or nt == 0 else [seed, seed + 1000, seed + 2000]
+        for sd in seeds:
+            fr = run_family(pid, fam, n, sd, corpus if first else ())
+            first = False
+            results.append(fr)
     # real-crypto / concurrency sweeps (self-contained Go, stdlib oracle)
     real_reports = []
     for fam, nq, nt in cfg.get("real", []):
@@ -517,10 +520,10 @@ def run_property(pid, tier, seed):
             "evaluations": evaluations, "distinct_nontrivial": nontrivial,
             "rule": "operations generated from one splitmix64 stream (seed) per family plus corpus; an operation counts as non-trivial when the model's outcome is past the first gate (not a bare decode/encode error), distinct by SHA-1 of the operation line",
             "samples": samples,
-            "families": {fr.fam: {"evaluations": fr.evaluations, "unmodelled": fr.unmodelled,
+            "families": {("%s#%d" % (fr.fam, i)): {"evaluations": fr.evaluations, "unmodelled": fr.unmodelled,
                                   "nontrivial": len(fr.nontrivial), "disagreements": len(fr.disagreements),
                                   "kinds": fr.kinds,
-                                  "outcomes": dict(sorted(fr.outcomes.items(), key=lambda kv: -kv[1])[:12])} for fr in results},
+                                  "outcomes": dict(sorted(fr.outcomes.items(), key=lambda kv: -kv[1])[:12])} for i, fr in enumerate(results)},
             "real_sweeps": [{k: v for k, v in r.items() if k != "failures"} | {"failures": len(r["failures"])} for r in real_reports],
             "unmodelled": unmodelled,
             "facts_regenerated": facts_ok,
